@@ -21,14 +21,11 @@ fn sink<T: std::fmt::Debug>(v: &T) -> usize {
 /// Every formatter must return normally whatever options the caller's format spec carries (width below and above the
 /// text's length, precision below and far above it, alignment, sign, zero padding, alternate form).
 fn fmt_specs<T: std::fmt::Display>(v: &T) -> usize {
-    // every fourth call (the specs do not depend on the input; a quarter of several million values is plenty)
-    thread_local! { static CALLS: std::cell::Cell<u32> = std::cell::Cell::new(0); }
-    let n = CALLS.with(|c| {
-        let v = c.get().wrapping_add(1);
-        c.set(v);
-        v
-    });
-    if n % 4 != 0 {
+    // for a quarter of the values, chosen by the value's own text (so that a replay makes the same choice: a per-thread call
+    // counter, as used before round 14, made replays of such failures skip the specs)
+    let plain = v.to_string();
+    let pick = plain.len().wrapping_add(plain.bytes().fold(0usize, |a, b| a.wrapping_mul(31).wrapping_add(b as usize)));
+    if pick % 4 != 0 {
         return 0;
     }
     format!("{:.120}", v).len().min(1)
